@@ -6,8 +6,8 @@ expected result; the oracle is World_L0 evaluated by TLC on the recorded trace.
 import random
 
 PATHS = {
-    "read": ["get", "wget", "contains", "lend_get", "lend2_get", "r_get_other", "rl_get_other", "rm_get_other", "entry_get"],
-    "write": ["get_mut", "lend_get_mut", "rm_get_other_mut", "entry_get_mut", "entry_into_mut"],
+    "read": ["get", "wget", "gget", "gwget", "contains", "lend_get", "lend2_get", "r_get_other", "rl_get_other", "rm_get_other", "entry_get"],
+    "write": ["get_mut", "gget_mut", "lend_get_mut", "rm_get_other_mut", "entry_get_mut", "entry_into_mut"],
     "insert": ["insert", "ginsert", "entry_replace", "entry_insert"],
     "orins": ["or_insert", "or_insert_with"],
     "remove": ["remove", "entry_remove"],
@@ -347,10 +347,10 @@ def kind_churn_scripts(seed, per_kind, n_ops, tid0, kinds=None, far=False):
                     ops.append({"o": "sop", "path": rng.choice(PATHS["read"]), "s": 0, "h": h})
                 elif x < 0.88:
                     ops.append({"o": "sop", "path": rng.choice(PATHS["write"] + ["gmod"]), "s": 0, "h": h, "w": rng.random() < 0.8})
-                elif x < 0.93:
+                elif x < 0.91:
                     ops.append({"o": "wop", "k": "joinmut", "s": 0, "v": rng.choice(["join", "lend", "par"]), "sel": 0xffff, "wsel": rng.randrange(1 << 16)})
                 elif x < 0.97:
-                    ops.append({"o": "wop", "k": rng.choice(["slice", "slicemut", "join", "count", "restrict"]), "s": 0,
+                    ops.append({"o": "wop", "k": rng.choice(["slice", "slice", "slicemut", "join", "count", "restrict", "entries", "joinent"]), "s": 0,
                                 "v": rng.choice(["read", "mut_join", "mut_lend", "lend", "join"]), "sel": rng.randrange(1 << 16), "wsel": rng.randrange(1 << 16)})
                 else:
                     ops.append({"o": "wop", "k": "setemit", "s": 0, "b": rng.random() < 0.6})
